@@ -192,7 +192,14 @@ def cases(rng, tier, shard, nshards):
         else:
             shape = [int(s) for s in rng.integers(1, 4, size=int(rng.integers(1, 3)))]
             x = (rng.normal(size=shape) * 10.0 ** rng.uniform(-2, 2)).tolist()
-        yield dict(kind=kind, opts=_rand_opts(rng, kind), x=x, method=method, n=n, order=order)
+        hist = None
+        if rng.random() < 0.4:
+            hist = []
+            for _ in range(int(rng.integers(1, 4))):
+                same = rng.random() < 0.6          # mostly the same (method, n) with another order / point: near-collisions
+                hist.append([float(rng.choice([-1, 1]) * 10.0 ** rng.uniform(-2, 2)), method if same else str(rng.choice(METHODS)),
+                             n if same else int(rng.integers(1, 11)), int(rng.integers(1, 11))])
+        yield dict(kind=kind, opts=_rand_opts(rng, kind), x=x, method=method, n=n, order=order, history=hist)
 
 
 def _ulp(v):
@@ -239,6 +246,16 @@ def run_case(case, ctx):
     method, n, order = case['method'], case['n'], case['order']
     try:
         gen = cls(**opts)
+        hist = case.get('history')
+        if hist:
+            # the same generator instance has already produced sequences for other points / methods / n / orders (a
+            # generator shared by several Derivative objects): nothing of that may leak into the sequence that is judged
+            ctx.count('generator_reused_after_other_configurations')
+            for (hx, hm, hn, ho) in hist:
+                try:
+                    list(gen(np.asarray(hx), hm, hn, ho))
+                except Exception:
+                    pass
         got = list(gen(x_lib, method, n, order))
     except Exception as exc:
         ctx.reject('generator_raised', observed=repr(exc))
